@@ -107,7 +107,7 @@ public:
     void P2PTsm(const SymbS& ssymb, const long sidx[], const ValsS&, const long ns,
                 const SymbT& tsymb, const long tidx[], const ValsT&, Rhs& trhs, const long nt, const long code) const {
         unsigned long ws = 0;
-        for(long k = 0 ; k < ns ; ++k) ws += trace_sink()->weight(sidx[k] + (1L << 40));   // source ids are offset
+        for(long k = 0 ; k < ns ; ++k) ws += trace_sink()->weight(sidx[k]);
         for(long k = 0 ; k < nt ; ++k) trhs[0][k] += ws;
         trace_sink()->add("P2PTsm " + std::to_string(ssymb.spaceIndex) + " " + std::to_string(tsymb.spaceIndex) + " " + std::to_string(code)
                           + " sc=" + coordstr(ssymb.boxCoord) + " tc=" + coordstr(tsymb.boxCoord) + " : " + pidstr(sidx, ns) + " : " + pidstr(tidx, nt));
